@@ -287,8 +287,8 @@ pub fn property() -> Property {
         assumptions: &[],
         both_profiles: false,
         subs: vec![
-            sub("dominators/simple_fast", 150_000, 4_000_000, d_strategy, d_run),
-            sub("articulation_points/brute", 150_000, 4_000_000, a_strategy, a_run),
+            sub("dominators/simple_fast", 3_000_000, 50_000_000, d_strategy, d_run),
+            sub("articulation_points/brute", 3_000_000, 50_000_000, a_strategy, a_run),
         ],
     }
 }
